@@ -225,6 +225,8 @@ _BUILTINS = {
     'zip': lambda *a: list(zip(*a)), 'isinstance': isinstance, 'iter': iter, 'next': lambda it, *d: next(iter(it), *d),
     'None': None, 'True': True, 'False': False, 'round': round, 'repr': repr, 'hex': hex, 'vars': vars,
     'namedtuple': collections.namedtuple,
+    'map': lambda f, *its: [f(*a) for a in zip(*its)], 'filter': lambda f, it: [x for x in it if (f(x) if f is not None else x)],
+    'callable': callable, 'hash': hash, 'bin': bin, 'pow': pow, 'slice': slice, 'type': type, 'object': object,
     'ValueError': ValueError, 'TypeError': TypeError, 'KeyError': KeyError, 'IndexError': IndexError,
     'AttributeError': AttributeError, 'LookupError': LookupError, 'UnicodeError': UnicodeError,
     'UnicodeEncodeError': UnicodeEncodeError, 'OSError': OSError, 'Exception': Exception,
@@ -240,7 +242,7 @@ _SAFE_METHODS = {
     __import__('decimal').Decimal: {'quantize', 'normalize', 'to_integral_value', 'is_finite', 'as_tuple'},
     list: {'index', 'count', 'append', 'extend', 'pop', 'insert', 'remove', 'clear', 'sort', 'reverse', 'copy'},
     frozenset: {'union', 'intersection'},
-    set: {'union', 'intersection'},
+    set: {'union', 'intersection', 'add', 'discard', 'update', 'issubset', 'issuperset', 'difference', 'copy'},
 }
 
 
